@@ -128,8 +128,16 @@ def sym_task(task):
             if len(out['cross']) < cross_cap:
                 m = c.path_model()
                 if m is not None:
-                    out['cross'].append({'values': _model_values(w, m), 'tables': _model_tables(w, m),
-                                         'expect': [n for n in names if out['clauses'].get(n) == 'unsat']})
+                    cj = {'values': _model_values(w, m), 'tables': _model_tables(w, m),
+                          'expect': [n for n in names if out['clauses'].get(n) == 'unsat']}
+                    # a path model with values near/over the float range (clamped by model_value) is outside A-real:
+                    # it cannot be replayed faithfully with floats, so it is not used as a native cross-check
+                    big = [abs(x) for x in cj['values'].values()] + [abs(x) for t in cj['tables'].values()
+                                                                      for e in t['entries'] for x in (e[0] + [e[1]])]
+                    if all(x < 1e150 for x in big):
+                        out['cross'].append(cj)
+                    else:
+                        stats['cross_skipped_float_range'] = stats.get('cross_skipped_float_range', 0) + 1
             if out['samples'] is None and w.samples:
                 out['samples'] = {k: str(v)[:300] for k, v in w.samples.items()}
             out['solver_s'] += c.solver_time
